@@ -200,3 +200,11 @@ def run(ctx: Ctx, repo: Repo, tier: str) -> None:
     tracer_no_memory(ctx, repo, "R-C01.5")
     from .memo_rules import infer_no_memory
     infer_no_memory(ctx, repo, "R-C01.5")
+    # stage conditions whose failure alone already breaks C01 (decided in full under the stage's own property):
+    # every element of a container is inspected, every exit of a frame records its value's type, distinct rows survive the query
+    from . import c02 as _c02, c04 as _c04, c09 as _c09
+    ctx.note("R-C04.1/R-C04.2, R-C02.1/R-C02.2 and R-C09.1-3 below are the stage rules of C04, C02 and C09, run here as necessary conditions of C01")
+    _c04.rule_get_type(ctx, repo)
+    _c04.rule_dict_type(ctx, repo)
+    _c02.rule_return_table(ctx, repo)
+    _c09.rule_query(ctx, repo)
